@@ -25,7 +25,9 @@ def priorities():
     return PRIORITIES
 
 
-STEP_NAMES = ["pre", "run", "post", "sim", "ana", "merge", "a", "b"]
+STEP_NAMES = ["pre", "run", "post", "sim", "ana", "merge", "a", "b",
+              # names are data: blanks at either end, a line break from a block scalar
+              "run ", " run", "post\n", "a  "]
 PARAMS = ["P", "SIZE", "ITER", "T"]
 
 
